@@ -227,6 +227,7 @@ func checkAlgoSelection(c *fw.Ctx) {
 			c.Undecided(rule, spec, "path conditions too large")
 			continue
 		}
+		nAlgoAtoms := 0
 		for _, call := range fw.CallsTo(fn, false, resolvers) {
 			// which algorithm values reach this call
 			var vals []string
@@ -234,7 +235,8 @@ func checkAlgoSelection(c *fw.Ctx) {
 				unk := map[string]bool{}
 				env := func(atom string) (bool, bool) {
 					l, r, isEq := parseEq(atom)
-					if isEq && l == algo {
+					if isEq && (l == algo || isAlgoAtom(atom)) {
+						nAlgoAtoms++
 						return r == v, true
 					}
 					if strings.HasPrefix(atom, "next(range(") || strings.HasPrefix(atom, "((phi(-1|") {
@@ -246,14 +248,21 @@ func checkAlgoSelection(c *fw.Ctx) {
 					vals = append(vals, v)
 				}
 			}
+			if nAlgoAtoms == 0 {
+				continue // the dispatch is not on a value the rule recognises as the algorithm
+			}
 			for _, v := range vals {
 				c.Check(want[v] == fw.CalleeName(call), rule, fmt.Sprintf("%s: algorithm %s is resolved by %s", spec, v, strings.TrimPrefix(want[v], "gmsl.")), c.P.Pos(call.Pos()), "", fmt.Sprintf("algorithm value %s reaches %s", v, fw.CalleeName(call)))
 				delete(want, v)
 			}
 			// the algorithm value is passed on
 			if fw.CalleeName(call) == "gmsl.ResolveStateConflictsV2New" {
-				c.Check(fw.Sig(call.Common().Args[0]) == algo, rule, spec+" passes the room version's algorithm to the resolver", c.P.Pos(call.Pos()), "", "first argument is "+fw.Sig(call.Common().Args[0]))
+				c.Check(fw.Sig(call.Common().Args[0]) == algo || isAlgoValue(call.Common().Args[0]), rule, spec+" passes the room version's algorithm to the resolver", c.P.Pos(call.Pos()), "", "first argument is "+fw.Sig(call.Common().Args[0]))
 			}
+		}
+		if nAlgoAtoms == 0 {
+			c.Undecided(rule, spec+": dispatch on the state resolution algorithm", "no comparison of the room version's algorithm with a constant was recognised")
+			continue
 		}
 		for v, w := range want {
 			c.Fail(rule, fmt.Sprintf("%s: algorithm %s is resolved by %s", spec, v, strings.TrimPrefix(w, "gmsl.")), c.P.Pos(fn.Pos()), "no call site for this algorithm value")
@@ -263,6 +272,12 @@ func checkAlgoSelection(c *fw.Ctx) {
 
 func checkV2Drivers(c *fw.Ctx) {
 	rule := "2 stages"
+	if c.InlinedReports == nil {
+		c.InlinedReports = map[string]bool{}
+	}
+	// the order of the stages is judged on whichever view shows the calls: moving stages into
+	// a helper hides their arguments from the source view but not from the inlined one
+	c.InlinedReports[rule] = true
 	rto := "(*gmsl.stateResolverV2).reverseTopologicalOrdering"
 	apply := "(*gmsl.stateResolverV2).applyEvents"
 	auth := "(*gmsl.stateResolverV2).authAndApplyEvents"
@@ -647,4 +662,19 @@ func checkV1Order(c *fw.Ctx) {
 			c.Check(len(fw.CallsTo(f, false, fw.NameIs("gmsl.sortConflictedEventsByDepthAndSHA1"))) == 1, rule, spec+" sorts the conflicted block by depth and SHA-1", c.P.Pos(f.Pos()), "", "block is not sorted with the v1 comparator")
 		}
 	}
+}
+
+// isAlgoValue: the value is the room version's state resolution algorithm (possibly handed
+// back by a helper or merged from a helper's exits).
+func isAlgoValue(v ssa.Value) bool {
+	return fw.DerivesFrom(v, fw.FlowSpec{IsSource: fw.IsResultOf(func(n string) bool { return strings.HasSuffix(n, ".StateResAlgorithm") }, -1)})
+}
+
+// isAlgoAtom: the atom compares the algorithm value with a constant.
+func isAlgoAtom(atom string) bool {
+	bo, ok := fw.AtomValue(atom).(*ssa.BinOp)
+	if !ok {
+		return false
+	}
+	return isAlgoValue(bo.X) || isAlgoValue(bo.Y)
 }
